@@ -4,7 +4,7 @@
   The theorems quantify over EVERY token tree of the model's AST type (not only parser output),
   every string in every attribute, and all option combinations: they are independent of the
   parser.  `renderDoc` is the model of `HtmlRenderer.render` as an event list; `render o d =
-  flat (renderDoc o d)` is the output string, compared byte for byte with the real renderer by the
+  flat (renderDoc o.q d)` is the output string, compared byte for byte with the real renderer by the
   `render.html` correspondence unit.  The only hypothesis is `levelsOks` (heading levels 1…6,
   which C12 states of parsed documents): it makes `h<level>` a tag of the fixed vocabulary.
 -/
@@ -17,11 +17,11 @@ open Mistletoe Mistletoe.Html Mistletoe.Pred Mistletoe.Escape
     the fixed attribute names, whose attribute values contain no `"`, `<`, `>`, and whose text
     contains no `<`, `>` and `&` only as the five character references. -/
 theorem C08_with_raw (o : Opts) (d : Doc) (h : levelsOks d.kids = true) :
-    render o d = flat (renderDoc o d) ∧ WellFormed (renderDoc o d)
-    ∧ rawsOf (renderDoc o d) = (if (renderDoc o d).isEmpty then [] else htmlOfL d.kids) := by
-  refine ⟨rfl, ⟨(doc_wf o d h).1, ?_⟩, raws_doc o d⟩
+    render o d = flat (renderDoc o.q d) ∧ WellFormed (renderDoc o.q d)
+    ∧ rawsOf (renderDoc o.q d) = (if (renderDoc o.q d).isEmpty then [] else htmlOfL d.kids) := by
+  refine ⟨rfl, ⟨(doc_wf o.q d h).1, ?_⟩, raws_doc o.q d⟩
   intro e he
-  exact List.all_eq_true.mp (doc_wf o d h).2 e he
+  exact List.all_eq_true.mp (doc_wf o.q d h).2 e he
 
 theorem htmlSpansL_nil_of_noHtml : ∀ (is : List Inline), noHtmlInlines is = true → htmlSpansL is = []
   | [], _ => rfl
@@ -78,15 +78,15 @@ end
 /-- **Raw-HTML processing disabled** (the tree holds no HtmlBlock / HtmlSpan token): the output
     consists *solely* of the renderer's own tags and escaped text — no verbatim leaf at all. -/
 theorem C08_no_raw (o : Opts) (d : Doc) (h : levelsOks d.kids = true) (hn : noHtmlBlocks d.kids = true) :
-    WellFormed (renderDoc o d) ∧ ∀ e ∈ renderDoc o d, isRaw e = false := by
+    WellFormed (renderDoc o.q d) ∧ ∀ e ∈ renderDoc o.q d, isRaw e = false := by
   have hw := C08_with_raw o d h
   refine ⟨hw.2.1, ?_⟩
-  have hr : rawsOf (renderDoc o d) = [] := by
+  have hr : rawsOf (renderDoc o.q d) = [] := by
     rw [hw.2.2, htmlOfL_nil d.kids hn]; split <;> rfl
   intro e he
   cases e <;> try rfl
   rename_i s
-  have : s ∈ rawsOf (renderDoc o d) := by
+  have : s ∈ rawsOf (renderDoc o.q d) := by
     simp only [rawsOf, List.mem_filterMap]
     exact ⟨_, he, rfl⟩
   rw [hr] at this
